@@ -262,7 +262,7 @@ def rescale_dump(dump, enz, kv, km):
         c['cont'] = {k: (a if k in enz else a * km) for k, a in c['cont'].items()}
 
 
-def run_job(progs, rprogs, overrides, tag, factory_density=False):
+def run_job(progs, rprogs, overrides, tag, factory_density=False, ledger=False):
     """run histories (progs) and recipes (rprogs) in a separate process under pyplate.yaml + overrides; dumps taken under other
     storage units are rescaled to uL / umol so that the oracles read them as usual.  Returns (observations per history,
     [(bake outcome, query results)] per recipe)"""
@@ -270,7 +270,7 @@ def run_job(progs, rprogs, overrides, tag, factory_density=False):
     d = os.path.join(common.BUILD, 'cfg', tag)
     shutil.rmtree(d, ignore_errors=True)
     write_config(d, overrides)
-    json.dump({'progs': progs, 'recipes': rprogs, 'factory_density': factory_density}, open(os.path.join(d, 'job.json'), 'w'))
+    json.dump({'progs': progs, 'recipes': rprogs, 'factory_density': factory_density, 'ledger': ledger}, open(os.path.join(d, 'job.json'), 'w'))
     env = dict(os.environ, PYPLATE_CONFIG=d)
     p = subprocess.run(['/venv/bin/python', os.path.join(common.VERIF, 'harness', 'cfgworker.py'), os.path.join(d, 'job.json'), os.path.join(d, 'out.json')],
                        env=env, stdout=subprocess.PIPE, stderr=subprocess.STDOUT, text=True, timeout=1200)
@@ -279,7 +279,7 @@ def run_job(progs, rprogs, overrides, tag, factory_density=False):
     from props import C18
     out = C18.dec(json.load(open(os.path.join(d, 'out.json'))))
     shutil.rmtree(d, ignore_errors=True)
-    rec = [(r['bake'], r['queries']) for r in out['recipes']]
+    rec = [(r['bake'], r['queries']) + ((r['ledger'],) if ledger else ()) for r in out['recipes']]
     if 'volume_storage_unit' in overrides or 'moles_storage_unit' in overrides:
         kv = dsl.PFX[overrides.get('volume_storage_unit', 'uL')[:-1]][1] / dsl.PFX['u'][1]
         km = dsl.PFX[overrides.get('moles_storage_unit', 'umol')[:-3]][1] / dsl.PFX['u'][1]
@@ -289,7 +289,7 @@ def run_job(progs, rprogs, overrides, tag, factory_density=False):
                 if o.get('ok'):
                     for _, dump in o['out']:
                         rescale_dump(dump, enz, kv, km)
-        for prog, (bake, _) in zip(rprogs, rec):
+        for prog, (bake, *_) in zip(rprogs, rec):
             enz = {s['id'] for s in prog['subs'] if s['kind'] == 'Enzyme'}
             if bake[0] == 'ok':
                 for dump in bake[1].values():
@@ -333,6 +333,8 @@ def variants(chk, gens, oracle, tag, limit=12):
             if 'volume_storage_unit' in overrides or 'moles_storage_unit' in overrides:
                 prog['tol_k'] = 1000.0
             if dens:
+                for o_ in prog['ops']:       # what is feasible was decided under the default densities when the history was generated
+                    o_.pop('expect', None)
                 for sd in prog['subs']:
                     if sd['kind'] == 'Solid':
                         sd['dens'] = dens[0]
